@@ -133,5 +133,10 @@ def explore(ctx):
                 r = rng.below(3)
                 ops.append("i%d" % rng.below(1000) if r == 0 else ("f" if r == 1 else "r%d" % rng.below(1000)))
             lines.append("inst i%d ops=%s" % (k, ",".join(ops) or "-"))
+            if k % 3 == 0 and any(o[0] in "fr" for o in ops):
+                # the same operations against a storage that stores and then reports an error, and with all finishing operations
+                # racing each other against a slow storage
+                lines.append("inst j%d storage=errs ops=%s" % (k, ",".join(ops)))
+                lines.append("inst h%d storage=slow conc=1 ops=%s" % (k, ",".join(ops + ["f", "r%d" % rng.below(100)])))
     triples, tie = C.run_both(ctx, "TestVerifC20", lines, go_timeout=1500)
     return dict(verdicts=triples, tie=tie, stats=dict(cases=len(lines)))
